@@ -10,15 +10,15 @@ import json
 import sys
 
 
-def rust_type(cls, lt, pos):
+def rust_type(cls, lt, pos, sp=""):
     a = "'a " if lt == "explicit" else ""
     al = "<'a>" if lt == "explicit" else "<'_>"
     return {
         "scalar": "u32",
         "str": f"&{a}str",
         "string": "String",
-        "opt": f"Option<&{a}str>",
-        "optnum": "Option<u32>",
+        "opt": f"{sp}Option<&{a}str>",
+        "optnum": f"{sp}Option<u32>",
         "slice": f"&{a}[u32]",
         "strslice": f"&{a}[&{a}str]",
         "struct": f"Pt{al}",
@@ -76,7 +76,7 @@ def gen_decl(i, d, group):
         if p["cls"] == "generic":
             generics.append(f"T{pos}: serde::Serialize + std::fmt::Debug")
         attr = f'#[zlink(rename = "{p["rename"]}")] ' if p["rename"] else ""
-        params_sig.append(f"{attr}{p['name']}: {rust_type(p['cls'], lt, pos)}")
+        params_sig.append(f"{attr}{p['name']}: {rust_type(p['cls'], lt, pos, p.get('sp', ''))}")
         ls, ex = value_decl(p, pos, i)
         lets.extend(ls)
         args.append(ex)
